@@ -26,6 +26,7 @@ struct Case {
   int pre = 0;                 // 0 nothing, 1 wait(INFINITE) before stop (reaped state; needs a child that exits), 2 wait(0) before stop
   int64_t epoch = 1000000;
   int fail_wait = -1;          // the wait of this executed step is interrupted (EINTR) ...
+  bool far = false;            // stop is called weeks after the start
   int64_t fail_offset = 0;     // ... by the first poll the library enters this long after the wait began
 };
 
@@ -106,6 +107,14 @@ Case decode(Tape &t, long sweep)
   if (t.chance(1, 5)) {
     c.fail_wait = (int) t.pick(3);
     if (t.chance(1, 3)) c.fail_offset = (int64_t) t.range(1, 3000);
+  }
+  // a handle that lives for weeks: stop is called 2^31 .. 2^33 ms after the start, long after any deadline
+  if (t.chance(1, 15)) {
+    static const int64_t far[] = { 2147483647LL, 2147483648LL, 2147483700LL, 3000000000LL, 4294967296LL + 17, 6442450944LL, 8589934592LL + 3 };
+    int64_t f = far[t.pick(7)];
+    if (c.self_exit_after != model::T_INF && c.self_exit_after >= c.stop_after) c.self_exit_after += f;
+    c.stop_after += f;
+    c.far = true;
   }
   return c;
 }
@@ -324,6 +333,7 @@ CaseResult run_case(Tape &t, long sweep)
   if (reaped) res.cls("already-reaped");
   if (cs.dead && !reaped) res.cls("exited-not-reaped");
   if (c.deadline) res.cls("with-deadline");
+  if (c.far) res.cls("stopped-weeks-after-start");
   if (!w.trouble.empty() && res.kind != CaseResult::FAIL) res.inconclusive("harness: " + w.trouble);
   if (!w.trouble.empty() && res.kind == CaseResult::FAIL) {
     res.kind = CaseResult::INCONCLUSIVE;
